@@ -32,12 +32,9 @@ class Uniform(Distribution):
         else:
             # If inside, compute the area and obtain the constant 
             # probability (pdf) as 1 divided by the area, the convert 
-            # to logpdf. Special case if scalar.
-            diff = self.high - self.low
-            if isinstance(diff, (list, tuple, np.ndarray)): 
-                v= np.prod(diff)
-            else:
-                v = diff
+            # to logpdf. Scalar bounds are broadcast to the dimension.
+            diff = (self.high - self.low)*np.ones(self.dim)
+            v = np.prod(diff)
             return_val = np.log(1.0/v)
         return return_val
 
